@@ -299,7 +299,8 @@ func (c *clipperBase) buildPath(op *OutPt, reverse, isOpen bool, path *Path64) b
 }
 
 func (c *clipperBase) executeInternal(ct ClipType, fillRule FillRule) {
-	if ct == NoClip {
+	if ct == NoClip || ct > Xor || fillRule > Negative {
+		// nothing to do; values outside the enumerations are treated like NoClip
 		c.succeeded = true
 		return
 	}
